@@ -53,4 +53,631 @@ theorem Rd.readExact_ok (fuel : Nat) (r : Rd) (h : Rd.Ok r) (n : Nat) (hfuel : n
           · rw [hd3, List.drop_drop]; congr 1; omega
         · rw [ih2 (by omega)]
 
+/-! ### `read_line` -/
+
+theorem List.takeWhile_length_le {α} (p : α → Bool) (l : List α) : (l.takeWhile p).length ≤ l.length := by
+  induction l with
+  | nil => simp
+  | cons x xs ih => simp only [List.takeWhile_cons]; split <;> simp <;> omega
+
+/-- the chunk contains an element failing `p`: the first such element of the whole list is in the chunk. -/
+theorem List.takeWhile_take_of_lt {α} (p : α → Bool) (l : List α) (a : Nat)
+    (h : ((l.take a).takeWhile p).length < (l.take a).length) : (l.take a).takeWhile p = l.takeWhile p := by
+  conv => rhs; rw [← List.take_append_drop a l, List.takeWhile_append]
+  rw [if_neg (by omega)]
+
+/-- the chunk has no element failing `p`. -/
+theorem List.takeWhile_of_take_all {α} (p : α → Bool) (l : List α) (a : Nat)
+    (h : ¬ ((l.take a).takeWhile p).length < (l.take a).length) :
+    l.takeWhile p = l.take a ++ (l.drop a).takeWhile p := by
+  have := List.takeWhile_length_le p (l.take a)
+  conv => lhs; rw [← List.take_append_drop a l, List.takeWhile_append]
+  rw [if_pos (by omega)]
+
+theorem Rd.readLine_ok (fuel : Nat) (r : Rd) (h : Rd.Ok r) (hfuel : r.data.length < fuel) :
+    ∃ r', r.readLine fuel =
+        .ok (r.data.takeWhile (· ≠ 10) ++ (if (r.data.takeWhile (· ≠ 10)).length < r.data.length then [10] else []), r') ∧
+      Rd.Ok r' ∧ r'.data = r.data.drop ((r.data.takeWhile (· ≠ 10)).length + 1) := by
+  induction fuel generalizing r with
+  | zero => omega
+  | succ fuel ih =>
+    unfold Rd.readLine
+    by_cases hne : r.data = []
+    · obtain ⟨r', he, hok, hd, _, _, h0⟩ := Rd.fillBuf_ok r h
+      rw [he, h0 hne, hne]
+      exact ⟨r', by simp, hok, by rw [hd, hne]; simp⟩
+    · obtain ⟨r', he, hok, hd, h1, hlen⟩ := Rd.fillBuf_ok_nonempty r h hne
+      rw [he]
+      have hnemp : (r.data.take r'.avail).isEmpty = false :=
+        List.isEmpty_false_of_length_pos _ (by omega)
+      simp only [hnemp, Bool.false_eq_true, if_false]
+      have hle : r'.avail ≤ r.data.length := hd ▸ hok.1
+      by_cases hlt : ((r.data.take r'.avail).takeWhile (· ≠ 10)).length < (r.data.take r'.avail).length
+      · rw [if_pos hlt]
+        have heq := List.takeWhile_take_of_lt (· ≠ 10) r.data r'.avail hlt
+        rw [heq] at hlt ⊢
+        refine ⟨r'.consume ((r.data.takeWhile (· ≠ 10)).length + 1), ?_, Rd.consume_ok _ _ hok, ?_⟩
+        · rw [if_pos (by omega)]
+        · rw [Rd.consume_data, hd]
+      · rw [if_neg hlt]
+        have heq := List.takeWhile_of_take_all (· ≠ 10) r.data r'.avail hlt
+        have hok2 := Rd.consume_ok r' r'.avail hok
+        have hd2 : (r'.consume r'.avail).data = r.data.drop r'.avail := by rw [Rd.consume_data, hd]
+        obtain ⟨r'', he2, hok3, hd3⟩ := ih (r'.consume r'.avail) hok2 (by rw [hd2, List.length_drop]; omega)
+        rw [hlen, he2]
+        refine ⟨r'', ?_, hok3, ?_⟩
+        · dsimp only
+          rw [hd2, heq, List.length_append, hlen, List.length_drop, List.append_assoc]
+          congr 3
+          by_cases hc : ((r.data.drop r'.avail).takeWhile (· ≠ 10)).length < r.data.length - r'.avail
+          · rw [if_pos hc, if_pos (by omega)]
+          · rw [if_neg hc, if_neg (by omega)]
+        · rw [hd3, hd2, heq, List.length_append, hlen, List.drop_drop]
+          rfl
+
+/-! ### the npy reader -/
+
+theorem readValuesRd_ok (en : Endian) (t : NpyTy) (fuel : Nat) (r : Rd) (h : Rd.Ok r) :
+    readValuesRd en t fuel r = readValues en t fuel r.data := by
+  induction fuel generalizing r with
+  | zero => rfl
+  | succ fuel ih =>
+    unfold readValuesRd readValues
+    by_cases hne : r.data = []
+    · obtain ⟨r', he, hok, hd, _, _, h0⟩ := Rd.fillBuf_ok r h
+      rw [he, h0 hne, hne]
+      simp
+    · obtain ⟨r', he, hok, hd, h1, hlen⟩ := Rd.fillBuf_ok_nonempty r h hne
+      rw [he]
+      have hnemp : (r.data.take r'.avail).isEmpty = false :=
+        List.isEmpty_false_of_length_pos _ (by omega)
+      have hnemp2 : r.data.isEmpty = false := by
+        cases hd' : r.data with
+        | nil => exact absurd hd' hne
+        | cons _ _ => rfl
+      simp only [hnemp, hnemp2, Bool.false_eq_true, if_false]
+      obtain ⟨h1, h2⟩ := Rd.readExact_ok t.width r' hok t.width (Nat.le_refl _)
+      rw [hd] at h1 h2
+      by_cases hw : r.data.length < t.width
+      · rw [if_pos hw, h2 hw]
+      · rw [if_neg hw]
+        obtain ⟨r'', he2, hok2, hd2⟩ := h1 (by omega)
+        rw [he2]
+        dsimp only
+        rw [ih r'' hok2, hd2]
+        cases readValues en t fuel (List.drop t.width r.data) <;> rfl
+
+/-- the detection prefix (`Model/Detect.lean`) is the first 64 KiB whatever the chunk schedule. -/
+theorem readPrefix_ok (r : Rd) (h : Rd.Ok r) : ∃ r', readPrefix r = .ok (r.data.take 65536, r') := by
+  obtain ⟨r', he, _⟩ := Rd.readToEnd_schedule_free (r.data.length + 1) r h (Nat.lt_succ_self _)
+  exact ⟨r', by unfold readPrefix; rw [he]⟩
+
+/-! ## readers with a failure offset -/
+
+/-- A reader that fails after `k` more bytes: the buffer never extends past the failure point, which is not beyond
+    the end of the data. -/
+def Rd.Fail (r : Rd) (k : Nat) : Prop := r.failAt = some k ∧ r.avail ≤ k ∧ k ≤ r.data.length
+
+theorem Rd.fillBuf_fail (r : Rd) (k : Nat) (h : Rd.Fail r k) :
+    (k = 0 ∧ r.fillBuf = .error .io) ∨
+    (0 < k ∧ ∃ r', r.fillBuf = .ok (r.data.take r'.avail, r') ∧ Rd.Fail r' k ∧ r'.data = r.data ∧ 1 ≤ r'.avail) := by
+  obtain ⟨hf, ha, hk⟩ := h
+  unfold Rd.fillBuf
+  by_cases hav : r.avail > 0
+  · rw [if_pos hav]
+    exact Or.inr ⟨by omega, r, rfl, ⟨hf, ha, hk⟩, rfl, hav⟩
+  · rw [if_neg hav, hf]
+    cases k with
+    | zero => exact Or.inl ⟨rfl, rfl⟩
+    | succ k =>
+      right
+      refine ⟨by omega, ?_⟩
+      have hemp : r.data.isEmpty = false := List.isEmpty_false_of_length_pos _ (by omega)
+      simp only [hemp, Bool.false_eq_true, if_false]
+      refine ⟨{ data := r.data, sched := r.sched.tail, failAt := some (k + 1),
+                avail := min (min (max 1 (r.sched.headD r.data.length)) r.data.length) (k + 1) },
+              rfl, ⟨rfl, ?_, hk⟩, rfl, ?_⟩
+      · exact Nat.min_le_right _ _
+      · show 1 ≤ min (min (max 1 (r.sched.headD r.data.length)) r.data.length) (k + 1)
+        omega
+
+theorem Rd.consume_fail (r : Rd) (k n : Nat) (h : Rd.Fail r k) (hn : n ≤ r.avail) : Rd.Fail (r.consume n) (k - n) := by
+  obtain ⟨hf, ha, hk⟩ := h
+  refine ⟨?_, ?_, ?_⟩
+  · simp only [Rd.consume, hf, Option.map_some]
+  · simp only [Rd.consume]; omega
+  · simp only [Rd.consume, List.length_drop]; omega
+
+/-- `read_exact(n)` on a failing reader: the next `n` bytes if the failure point is not before their end, the I/O error
+    otherwise (never EOF). -/
+theorem Rd.readExact_fail (fuel : Nat) (r : Rd) (k : Nat) (h : Rd.Fail r k) (n : Nat) (hfuel : n ≤ fuel) :
+    (k < n ∧ r.readExact fuel n = .error .io) ∨
+    (n ≤ k ∧ ∃ r', r.readExact fuel n = .ok (r.data.take n, r') ∧ Rd.Fail r' (k - n) ∧ r'.data = r.data.drop n) := by
+  induction fuel generalizing r n k with
+  | zero =>
+    have : n = 0 := by omega
+    subst this
+    exact Or.inr ⟨by omega, r, by simp [Rd.readExact], h, by simp⟩
+  | succ fuel ih =>
+    cases n with
+    | zero => exact Or.inr ⟨by omega, r, by simp [Rd.readExact], h, by simp⟩
+    | succ n =>
+      unfold Rd.readExact
+      rcases Rd.fillBuf_fail r k h with ⟨hk0, he⟩ | ⟨hkpos, r', he, hF, hd, h1⟩
+      · rw [he]; exact Or.inl ⟨by omega, rfl⟩
+      · rw [he]
+        have hle : r'.avail ≤ r.data.length := by have := hF.2.1; have := h.2.2; omega
+        have hlen : (r.data.take r'.avail).length = r'.avail := by simp only [List.length_take]; omega
+        have hnemp : (r.data.take r'.avail).isEmpty = false :=
+          List.isEmpty_false_of_length_pos _ (by omega)
+        simp only [hnemp, Bool.false_eq_true, if_false, hlen]
+        have hF2 := Rd.consume_fail r' k (min r'.avail (n + 1)) hF (by omega)
+        have hd2 : (r'.consume (min r'.avail (n + 1))).data = r.data.drop (min r'.avail (n + 1)) := by
+          rw [Rd.consume_data, hd]
+        have hak : r'.avail ≤ k := hF.2.1
+        rcases ih (r'.consume (min r'.avail (n + 1))) _ hF2 (n + 1 - min r'.avail (n + 1)) (by omega) with
+          ⟨hlt, he2⟩ | ⟨hle2, r'', he2, hF3, hd3⟩
+        · rw [he2]; exact Or.inl ⟨by omega, rfl⟩
+        · rw [he2]
+          refine Or.inr ⟨by omega, r'', ?_, ?_, ?_⟩
+          · dsimp only
+            have hm : min (min r'.avail (n + 1)) r'.avail = min r'.avail (n + 1) := by omega
+            rw [hd2, List.take_take, hm, ← List.take_add]
+            congr 3
+            omega
+          · have : k - min r'.avail (n + 1) - (n + 1 - min r'.avail (n + 1)) = k - (n + 1) := by omega
+            rw [← this]; exact hF3
+          · rw [hd3, hd2, List.drop_drop]; congr 1; omega
+
+/-- `read_to_end` on a failing reader reports the I/O error. -/
+theorem Rd.readToEnd_fail (fuel : Nat) (r : Rd) (k : Nat) (h : Rd.Fail r k) (hfuel : r.data.length < fuel) :
+    r.readToEnd fuel = .error .io := by
+  induction fuel generalizing r k with
+  | zero => omega
+  | succ fuel ih =>
+    unfold Rd.readToEnd
+    rcases Rd.fillBuf_fail r k h with ⟨hk0, he⟩ | ⟨hkpos, r', he, hF, hd, h1⟩
+    · rw [he]
+    · rw [he]
+      have hle : r'.avail ≤ r.data.length := by have := hF.2.1; have := h.2.2; omega
+      have hlen : (r.data.take r'.avail).length = r'.avail := by simp only [List.length_take]; omega
+      have hnemp : (r.data.take r'.avail).isEmpty = false :=
+        List.isEmpty_false_of_length_pos _ (by omega)
+      simp only [hnemp, Bool.false_eq_true, if_false, hlen]
+      have hF2 := Rd.consume_fail r' k r'.avail hF (Nat.le_refl _)
+      rw [ih (r'.consume r'.avail) _ hF2 (by rw [Rd.consume_data, hd, List.length_drop]; omega)]
+
+/-- `read_line` on a failing reader: the I/O error, or a line with the reader still failing later. -/
+theorem Rd.readLine_fail (fuel : Nat) (r : Rd) (k : Nat) (h : Rd.Fail r k) (hfuel : r.data.length < fuel) :
+    r.readLine fuel = .error .io ∨ ∃ line r' k', r.readLine fuel = .ok (line, r') ∧ Rd.Fail r' k' := by
+  induction fuel generalizing r k with
+  | zero => omega
+  | succ fuel ih =>
+    unfold Rd.readLine
+    rcases Rd.fillBuf_fail r k h with ⟨hk0, he⟩ | ⟨hkpos, r', he, hF, hd, h1⟩
+    · rw [he]; exact Or.inl rfl
+    · rw [he]
+      have hle : r'.avail ≤ r.data.length := by have := hF.2.1; have := h.2.2; omega
+      have hlen : (r.data.take r'.avail).length = r'.avail := by simp only [List.length_take]; omega
+      have hnemp : (r.data.take r'.avail).isEmpty = false :=
+        List.isEmpty_false_of_length_pos _ (by omega)
+      simp only [hnemp, Bool.false_eq_true, if_false]
+      by_cases hlt : ((r.data.take r'.avail).takeWhile (· ≠ 10)).length < (r.data.take r'.avail).length
+      · rw [if_pos hlt]
+        exact Or.inr ⟨_, _, _, rfl, Rd.consume_fail r' k _ hF (by omega)⟩
+      · rw [if_neg hlt, hlen]
+        have hF2 := Rd.consume_fail r' k r'.avail hF (Nat.le_refl _)
+        rcases ih (r'.consume r'.avail) _ hF2 (by rw [Rd.consume_data, hd, List.length_drop]; omega) with
+          he2 | ⟨line, r'', k', he2, hF3⟩
+        · rw [he2]; exact Or.inl rfl
+        · rw [he2]; exact Or.inr ⟨_, _, _, rfl, hF3⟩
+
+/-- the npy value loop on a failing reader reports the I/O error (it only stops on an empty `fill_buf`). -/
+theorem readValuesRd_fail (en : Endian) (t : NpyTy) (fuel : Nat) (r : Rd) (k : Nat) (h : Rd.Fail r k)
+    (hfuel : r.data.length < fuel) : readValuesRd en t fuel r = .error .io := by
+  induction fuel generalizing r k with
+  | zero => omega
+  | succ fuel ih =>
+    unfold readValuesRd
+    rcases Rd.fillBuf_fail r k h with ⟨hk0, he⟩ | ⟨hkpos, r', he, hF, hd, h1⟩
+    · rw [he]
+    · rw [he]
+      have hle : r'.avail ≤ r.data.length := by have := hF.2.1; have := h.2.2; omega
+      have hnemp : (r.data.take r'.avail).isEmpty = false :=
+        List.isEmpty_false_of_length_pos _ (by simp only [List.length_take]; omega)
+      simp only [hnemp, Bool.false_eq_true, if_false]
+      have hw : 1 ≤ t.width := by cases t <;> decide
+      rcases Rd.readExact_fail t.width r' k hF t.width (Nat.le_refl _) with ⟨_, he2⟩ | ⟨hle2, r'', he2, hF2, hd2⟩
+      · rw [he2]
+      · rw [he2]
+        dsimp only
+        rw [ih r'' _ hF2 (by rw [hd2, hd, List.length_drop]; omega)]
+
+/-! ## the npy reader: one walk for both kinds of reader -/
+
+/-- no failure, or a failure offset inside the remaining data. -/
+def Rd.Inv (r : Rd) : Prop := Rd.Ok r ∨ ∃ k, Rd.Fail r k
+
+/-- `x` (through a reader that fails iff `b`) against `y` (on the whole byte string): equal without failure; with a
+    failure, the I/O error or the same error as on the whole string. -/
+def IoRel {α} (b : Bool) (x y : Except IoErr α) : Prop :=
+  (b = false ∧ x = y) ∨ (b = true ∧ (x = .error .io ∨ ∃ e, x = .error e ∧ y = .error e))
+
+theorem IoRel.err {α} (b : Bool) (e : IoErr) : IoRel (α := α) b (.error e) (.error e) := by
+  cases b
+  · exact Or.inl ⟨rfl, rfl⟩
+  · exact Or.inr ⟨rfl, Or.inr ⟨e, rfl, rfl⟩⟩
+
+theorem IoRel.io {α} (y : Except IoErr α) : IoRel true (.error .io) y := Or.inr ⟨rfl, Or.inl rfl⟩
+
+theorem Rd.readExact_inv (r : Rd) (hI : Rd.Inv r) (n : Nat) :
+    (r.failAt.isSome = true ∧ r.readExact n n = .error .io) ∨
+    (r.failAt.isSome = false ∧ r.data.length < n ∧ r.readExact n n = .error .eof) ∨
+    (n ≤ r.data.length ∧ ∃ r', r.readExact n n = .ok (r.data.take n, r') ∧ Rd.Inv r' ∧ r'.data = r.data.drop n ∧
+      r'.failAt.isSome = r.failAt.isSome) := by
+  rcases hI with hok | ⟨k, hF⟩
+  · obtain ⟨h1, h2⟩ := Rd.readExact_ok n r hok n (Nat.le_refl _)
+    by_cases hl : r.data.length < n
+    · exact Or.inr (Or.inl ⟨by rw [hok.2]; rfl, hl, h2 hl⟩)
+    · obtain ⟨r', he, hok', hd⟩ := h1 (by omega)
+      exact Or.inr (Or.inr ⟨by omega, r', he, Or.inl hok', hd, by rw [hok.2, hok'.2]⟩)
+  · rcases Rd.readExact_fail n r k hF n (Nat.le_refl _) with ⟨_, he⟩ | ⟨hle, r', he, hF', hd⟩
+    · exact Or.inl ⟨by rw [hF.1]; rfl, he⟩
+    · exact Or.inr (Or.inr ⟨by have := hF.2.2; omega, r', he, Or.inr ⟨_, hF'⟩, hd, by rw [hF.1, hF'.1]; rfl⟩)
+
+theorem readNpyRd_rel (r : Rd) (hI : Rd.Inv r) : IoRel r.failAt.isSome (readNpyRd r) (readNpy r.data) := by
+  generalize hb : r.failAt.isSome = b
+  unfold readNpyRd readNpy
+  rcases Rd.readExact_inv r hI 6 with ⟨hs, he⟩ | ⟨hs, hlt, he⟩ | ⟨hle, r1, he, hI1, hd1, hs1⟩
+  · rw [he]; rw [hb] at hs; subst hs; exact IoRel.io _
+  · rw [he, if_pos hlt]; exact IoRel.err _ _
+  rw [he, if_neg (by omega)]; dsimp only
+  by_cases hm : List.take 6 r.data ≠ npyMagic
+  · rw [if_pos hm, if_pos hm]; exact IoRel.err _ _
+  rw [if_neg hm, if_neg hm, ← hd1]
+  rw [← hs1] at hb
+  clear he hs1 hm hle
+  rcases Rd.readExact_inv r1 hI1 2 with ⟨hs, he⟩ | ⟨hs, hlt, he⟩ | ⟨hle, r2, he, hI2, hd2, hs2⟩
+  · rw [he]; rw [hb] at hs; subst hs; exact IoRel.io _
+  · rw [he, if_pos hlt]; exact IoRel.err _ _
+  rw [he, if_neg (by omega)]; dsimp only
+  have hv : (List.take 2 r1.data).getD 0 0 = r1.data.getD 0 0 := by
+    cases hh : r1.data with
+    | nil => rfl
+    | cons x xs => rfl
+  rw [hv]
+  generalize r1.data.getD 0 0 = v
+  rw [← hs2] at hb
+  clear he hv hs2 hle
+  rcases v with _ | _ | _ | _ | v
+  all_goals simp only []
+  all_goals first
+    | exact IoRel.err _ _
+    | (rw [← hd2]
+       rcases Rd.readExact_inv r2 hI2 _ with ⟨hs, he⟩ | ⟨hs, hlt, he⟩ | ⟨hle, r3, he, hI3, hd3, hs3⟩
+       · rw [he]; rw [hb] at hs; subst hs; exact IoRel.io _
+       · rw [he, if_pos hlt]; exact IoRel.err _ _
+       rw [he, if_neg (by omega)]; dsimp only
+       rw [← hd3]
+       rw [← hs3] at hb
+       clear he hs3 hle
+       rcases Rd.readExact_inv r3 hI3 (ofLeBytes (List.take _ r2.data)) with
+         ⟨hs, he⟩ | ⟨hs, hlt, he⟩ | ⟨hle, r4, he, hI4, hd4, hs4⟩
+       · rw [he]; rw [hb] at hs; subst hs; exact IoRel.io _
+       · rw [he, if_pos hlt]; exact IoRel.err _ _
+       rw [he, if_neg (by omega)]; dsimp only
+       rw [← hd4]
+       rw [← hs4] at hb
+       clear he hs4 hle
+       generalize List.take (ofLeBytes (List.take _ r2.data)) r3.data = dictBytes
+       by_cases ha : (!allAscii dictBytes) = true
+       · rw [if_pos ha, if_pos ha]; exact IoRel.err _ _
+       rw [if_neg ha, if_neg ha]
+       cases parseNpyDict (bytesToChars dictBytes) with
+       | none => exact IoRel.err _ _
+       | some d =>
+         dsimp only
+         by_cases hfo : d.fortran = true
+         · rw [if_pos hfo, if_pos hfo]; exact IoRel.err _ _
+         rw [if_neg hfo, if_neg hfo]
+         rcases hI4 with hok | ⟨k, hF⟩
+         · rw [readValuesRd_ok _ _ _ _ hok]
+           rw [hok.2] at hb
+           refine Or.inl ⟨hb.symm, ?_⟩
+           cases readValues d.endian d.ty (r4.data.length + 1) r4.data <;> rfl
+         · rw [readValuesRd_fail _ _ _ _ k hF (Nat.lt_succ_self _)]
+           rw [hF.1] at hb
+           subst hb
+           exact IoRel.io _)
+
+theorem readNpyRd_ok (r : Rd) (h : Rd.Ok r) : readNpyRd r = readNpy r.data := by
+  rcases readNpyRd_rel r (Or.inl h) with ⟨_, he⟩ | ⟨hb, _⟩
+  · exact he
+  · rw [h.2] at hb; cases hb
+
+theorem readNpyRd_fail (r : Rd) (k : Nat) (hF : Rd.Fail r k) :
+    readNpyRd r = .error .io ∨ ∃ e, readNpyRd r = .error e ∧ readNpy r.data = .error e := by
+  rcases readNpyRd_rel r (Or.inr ⟨k, hF⟩) with ⟨hb, _⟩ | ⟨_, he⟩
+  · rw [hF.1] at hb; cases hb
+  · exact he
+
+/-! ## the text reader -/
+
+theorem Char.ofNat_ne_newline : ∀ x, x < 128 → x ≠ 10 → Char.ofNat x ≠ '\n' := by decide +kernel
+
+/-- the line read by `read_line` followed by the rest is the whole input. -/
+theorem List.line_append_rest (l : List Nat) :
+    (l.takeWhile (· ≠ 10) ++ (if (l.takeWhile (· ≠ 10)).length < l.length then [10] else [])) ++
+      l.drop ((l.takeWhile (· ≠ 10)).length + 1) = l := by
+  induction l with
+  | nil => rfl
+  | cons x xs ih =>
+    by_cases hx : x = 10
+    · subst hx; simp
+    · have : (decide (x ≠ 10)) = true := by simpa using hx
+      rw [List.takeWhile_cons, if_pos this]
+      simp only [List.length_cons, Nat.add_lt_add_iff_right, List.drop_succ_cons, List.cons_append]
+      rw [ih]
+
+/-- header characters: those of the line read by `read_line`, up to the newline. -/
+theorem bytesToChars_line (l : List Nat) (ha : allAscii l = true) :
+    (bytesToChars (l.takeWhile (· ≠ 10) ++ (if (l.takeWhile (· ≠ 10)).length < l.length then [10] else []))).takeWhile
+        (· ≠ '\n') = (bytesToChars l).takeWhile (· ≠ '\n') := by
+  induction l with
+  | nil => rfl
+  | cons x xs ih =>
+    have hx128 : x < 128 := by simp [allAscii] at ha; exact ha.1
+    have ha' : allAscii xs = true := by simp [allAscii] at ha ⊢; exact ha.2
+    by_cases hx : x = 10
+    · subst hx; simp [bytesToChars]
+    · have h1 : (decide (x ≠ 10)) = true := by simpa using hx
+      have h2 : (decide (Char.ofNat x ≠ '\n')) = true := by simpa using Char.ofNat_ne_newline x hx128 hx
+      rw [List.takeWhile_cons, if_pos h1]
+      simp only [List.length_cons, Nat.add_lt_add_iff_right, List.cons_append]
+      have := ih ha'
+      simp only [bytesToChars, List.map_cons, List.takeWhile_cons, h2, if_true] at this ⊢
+      rw [this]
+
+/-- value characters: those of the bytes after the line. -/
+theorem bytesToChars_rest (l : List Nat) (ha : allAscii l = true) :
+    bytesToChars (l.drop ((l.takeWhile (· ≠ 10)).length + 1)) = ((bytesToChars l).dropWhile (· ≠ '\n')).drop 1 := by
+  induction l with
+  | nil => rfl
+  | cons x xs ih =>
+    have hx128 : x < 128 := by simp [allAscii] at ha; exact ha.1
+    have ha' : allAscii xs = true := by simp [allAscii] at ha ⊢; exact ha.2
+    by_cases hx : x = 10
+    · subst hx; simp [bytesToChars]
+    · have h1 : (decide (x ≠ 10)) = true := by simpa using hx
+      have h2 : (decide (Char.ofNat x ≠ '\n')) = true := by simpa using Char.ofNat_ne_newline x hx128 hx
+      rw [List.takeWhile_cons, if_pos h1]
+      have := ih ha'
+      simp only [bytesToChars, List.map_cons, List.dropWhile_cons, h2, if_true, List.length_cons,
+        List.drop_succ_cons] at this ⊢
+      rw [this]
+
+theorem readTextRd_ok (r : Rd) (h : Rd.Ok r) : readTextRd r = readText r.data := by
+  unfold readTextRd readText
+  obtain ⟨r1, he1, hok1, hd1⟩ := Rd.readLine_ok (r.data.length + 1) r h (Nat.lt_succ_self _)
+  rw [he1]; dsimp only
+  obtain ⟨r2, he2, _⟩ := Rd.readToEnd_schedule_free (r1.data.length + 1) r1 hok1 (Nat.lt_succ_self _)
+  rw [he2]; dsimp only
+  rw [hd1, List.line_append_rest]
+  by_cases ha : (!allAscii r.data) = true
+  · rw [if_pos ha, if_pos ha]
+  rw [if_neg ha, if_neg ha]
+  have ha' : allAscii r.data = true := by simpa using ha
+  rw [bytesToChars_line _ ha', bytesToChars_rest _ ha']
+  cases parseTextHeader (List.takeWhile (· ≠ '\n') (bytesToChars r.data)) with
+  | none => rfl
+  | some shape =>
+    dsimp only
+    cases List.mapM parseF64 (splitWs (List.drop 1 (List.dropWhile (· ≠ '\n') (bytesToChars r.data)))) <;> rfl
+
+/-- the text reader on a failing reader reports the I/O error. -/
+theorem readTextRd_fail (r : Rd) (k : Nat) (hF : Rd.Fail r k) : readTextRd r = .error .io := by
+  unfold readTextRd
+  rcases Rd.readLine_fail (r.data.length + 1) r k hF (Nat.lt_succ_self _) with he | ⟨line, r1, k1, he, hF1⟩
+  · rw [he]
+  · rw [he]; dsimp only
+    rw [Rd.readToEnd_fail (r1.data.length + 1) r1 k1 hF1 (Nat.lt_succ_self _)]
+
+/-! ## writers -/
+
+theorem Wr.writeAll_none (fuel : Nat) (buf : List Nat) (w : Wr) (hf : w.failAt = none) (hfuel : buf.length ≤ fuel) :
+    ∃ w', Wr.writeAll fuel buf w = .ok w' ∧ w'.out = w.out ++ buf ∧ w'.failAt = none := by
+  induction fuel generalizing buf w with
+  | zero =>
+    cases buf with
+    | nil => exact ⟨w, rfl, by simp, hf⟩
+    | cons x xs => simp at hfuel
+  | succ fuel ih =>
+    cases buf with
+    | nil => exact ⟨w, rfl, by simp, hf⟩
+    | cons x xs =>
+      rw [Wr.writeAll]
+      · simp only [Wr.write, hf, Option.map_none]
+        have hc : min (max 1 (w.sched.headD (x :: xs).length)) (x :: xs).length ≠ 0 := by
+          simp only [List.length_cons]; omega
+        rw [if_neg hc]
+        obtain ⟨w', he, ho, hf'⟩ := ih (List.drop (min (max 1 (w.sched.headD (x :: xs).length)) (x :: xs).length) (x :: xs))
+          { out := w.out ++ List.take (min (max 1 (w.sched.headD (x :: xs).length)) (x :: xs).length) (x :: xs),
+            sched := w.sched.tail, failAt := none } rfl
+          (by simp only [List.length_drop, List.length_cons] at hfuel ⊢; omega)
+        refine ⟨w', he, ?_, hf'⟩
+        rw [ho, List.append_assoc, List.take_append_drop]
+      · intro h; cases h
+
+theorem Wr.writePieces_none (ps : List (List Nat)) (w : Wr) (hf : w.failAt = none) :
+    ∃ w', w.writePieces ps = .ok w' ∧ w'.out = w.out ++ ps.flatten ∧ w'.failAt = none := by
+  induction ps generalizing w with
+  | nil => exact ⟨w, rfl, by simp, hf⟩
+  | cons p ps ih =>
+    obtain ⟨w1, he1, ho1, hf1⟩ := Wr.writeAll_none p.length p w hf (Nat.le_refl _)
+    obtain ⟨w2, he2, ho2, hf2⟩ := ih w1 hf1
+    refine ⟨w2, ?_, ?_, hf2⟩
+    · rw [Wr.writePieces, Wr.writeAllOf, he1]; exact he2
+    · rw [ho2, ho1, List.flatten_cons, List.append_assoc]
+
+/-- `write_all` through a writer failing after `k` more bytes. -/
+theorem Wr.writeAll_fail (fuel : Nat) (buf : List Nat) (w : Wr) (k : Nat) (hf : w.failAt = some k)
+    (hfuel : buf.length ≤ fuel) :
+    (k < buf.length ∧ Wr.writeAll fuel buf w = .error .io) ∨
+    (buf.length ≤ k ∧ ∃ w', Wr.writeAll fuel buf w = .ok w' ∧ w'.failAt = some (k - buf.length)) := by
+  induction fuel generalizing buf w k with
+  | zero =>
+    cases buf with
+    | nil => exact Or.inr ⟨Nat.zero_le _, w, rfl, by simpa using hf⟩
+    | cons x xs => simp at hfuel
+  | succ fuel ih =>
+    cases buf with
+    | nil => exact Or.inr ⟨Nat.zero_le _, w, rfl, by simpa using hf⟩
+    | cons x xs =>
+      rw [Wr.writeAll]
+      · cases k with
+        | zero =>
+          left
+          refine ⟨by simp, ?_⟩
+          simp [Wr.write, hf]
+        | succ k =>
+          simp only [Wr.write, hf, Option.map_some]
+          have hc : min (min (max 1 (w.sched.headD (x :: xs).length)) (x :: xs).length) (k + 1) ≠ 0 := by
+            simp only [List.length_cons]; omega
+          rw [if_neg hc]
+          have hcl : min (min (max 1 (w.sched.headD (x :: xs).length)) (x :: xs).length) (k + 1) ≤ (x :: xs).length := by
+            omega
+          have hck : min (min (max 1 (w.sched.headD (x :: xs).length)) (x :: xs).length) (k + 1) ≤ k + 1 := by
+            omega
+          generalize min (min (max 1 (w.sched.headD (x :: xs).length)) (x :: xs).length) (k + 1) = c at hc hcl hck
+          rcases ih (List.drop c (x :: xs))
+              { out := w.out ++ List.take c (x :: xs), sched := w.sched.tail, failAt := some (k + 1 - c) }
+              (k + 1 - c) rfl (by simp only [List.length_drop, List.length_cons] at hfuel hcl ⊢; omega) with
+            ⟨hlt, he⟩ | ⟨hle, w', he, hf'⟩
+          · rw [List.length_drop] at hlt
+            exact Or.inl ⟨by omega, he⟩
+          · rw [List.length_drop] at hle hf'
+            refine Or.inr ⟨by omega, w', he, ?_⟩
+            rw [hf']; congr 1; omega
+      · intro h; cases h
+
+theorem Wr.writePieces_fail (ps : List (List Nat)) (w : Wr) (k : Nat) (hf : w.failAt = some k) :
+    (k < ps.flatten.length ∧ w.writePieces ps = .error .io) ∨
+    (ps.flatten.length ≤ k ∧ ∃ w', w.writePieces ps = .ok w' ∧ w'.failAt = some (k - ps.flatten.length)) := by
+  induction ps generalizing w k with
+  | nil => exact Or.inr ⟨Nat.zero_le _, w, rfl, by simpa using hf⟩
+  | cons p ps ih =>
+    rw [Wr.writePieces, Wr.writeAllOf, List.flatten_cons, List.length_append]
+    rcases Wr.writeAll_fail p.length p w k hf (Nat.le_refl _) with ⟨hlt, he⟩ | ⟨hle, w1, he, hf1⟩
+    · rw [he]; exact Or.inl ⟨by omega, rfl⟩
+    · rw [he]
+      dsimp only
+      rcases ih w1 (k - p.length) hf1 with ⟨hlt, he2⟩ | ⟨hle2, w2, he2, hf2⟩
+      · exact Or.inl ⟨by omega, he2⟩
+      · refine Or.inr ⟨by omega, w2, he2, ?_⟩
+        rw [hf2]; congr 1; omega
+
+theorem writeNpyWr_none (shape bits : List Nat) (w : Wr) (hf : w.failAt = none) :
+    (∀ bytes, writeNpy shape bits = .ok bytes →
+      ∃ w', writeNpyWr shape bits w = .ok w' ∧ w'.out = w.out ++ bytes) ∧
+    (∀ e, writeNpy shape bits = .error e → writeNpyWr shape bits w = .error e) := by
+  unfold writeNpyWr writeNpy npyHeader
+  dsimp only
+  obtain ⟨w1, he1, ho1, hf1⟩ := Wr.writePieces_none [npyMagic, [1, 0]] w hf
+  rw [he1]
+  dsimp only
+  by_cases hlen : (npyDict shape).length + (64 - (6 + 2 + 2 + (npyDict shape).length) % 64) < 65536
+  · rw [if_pos hlen, if_pos hlen]
+    dsimp only
+    obtain ⟨w2, he2, ho2, hf2⟩ := Wr.writePieces_none
+      ([leBytes 2 ((npyDict shape).length + (64 - (6 + 2 + 2 + (npyDict shape).length) % 64)),
+            asciiBytes (npyDict shape),
+            List.replicate (64 - (6 + 2 + 2 + (npyDict shape).length) % 64 - 1) 32 ++ [10]] ++
+          List.map (leBytes 8) bits) w1 hf1
+    refine ⟨fun bytes hb => ⟨w2, he2, ?_⟩, fun e he => by cases he⟩
+    cases hb
+    rw [ho2, ho1]
+    simp only [List.flatten_cons, List.flatten_nil, List.flatten_append, List.append_assoc, List.append_nil]
+  · rw [if_neg hlen, if_neg hlen]
+    dsimp only
+    refine ⟨fun bytes hb => ?_, fun e he => ?_⟩
+    · cases hb
+    · cases he; rfl
+
+theorem writeNpyWr_fail (shape bits bytes : List Nat) (w : Wr) (k : Nat) (hf : w.failAt = some k)
+    (hw : writeNpy shape bits = .ok bytes) (hk : k < bytes.length) : writeNpyWr shape bits w = .error .io := by
+  unfold writeNpy npyHeader at hw
+  unfold writeNpyWr
+  dsimp only at hw ⊢
+  by_cases hlen : (npyDict shape).length + (64 - (6 + 2 + 2 + (npyDict shape).length) % 64) < 65536
+  · rw [if_pos hlen] at hw
+    dsimp only at hw
+    have hbytes : bytes = [npyMagic, [1, 0]].flatten ++
+        ([leBytes 2 ((npyDict shape).length + (64 - (6 + 2 + 2 + (npyDict shape).length) % 64)),
+            asciiBytes (npyDict shape),
+            List.replicate (64 - (6 + 2 + 2 + (npyDict shape).length) % 64 - 1) 32 ++ [10]] ++
+          List.map (leBytes 8) bits).flatten := by
+      cases hw
+      simp only [List.flatten_cons, List.flatten_nil, List.flatten_append, List.append_assoc, List.append_nil]
+    rw [hbytes, List.length_append] at hk
+    rcases Wr.writePieces_fail [npyMagic, [1, 0]] w k hf with ⟨hlt, he⟩ | ⟨hle, w1, he, hf1⟩
+    · rw [he]
+    · rw [he]
+      dsimp only
+      rw [if_pos hlen]
+      rcases Wr.writePieces_fail
+        ([leBytes 2 ((npyDict shape).length + (64 - (6 + 2 + 2 + (npyDict shape).length) % 64)),
+            asciiBytes (npyDict shape),
+            List.replicate (64 - (6 + 2 + 2 + (npyDict shape).length) % 64 - 1) 32 ++ [10]] ++
+          List.map (leBytes 8) bits) w1 _ hf1 with ⟨hlt, he2⟩ | ⟨hle2, _⟩
+      · exact he2
+      · omega
+  · rw [if_neg hlen] at hw
+    cases hw
+
+theorem asciiBytes_append (a b : List Char) : asciiBytes (a ++ b) = asciiBytes a ++ asciiBytes b := by
+  simp [asciiBytes]
+
+/-- the byte string of `writeText` as the concatenation of the pieces `write_spectrum` writes. -/
+theorem writeText_pieces (shape bits : List Nat) (p : Nat) :
+    asciiBytes (writeText shape bits p) =
+      (match bits with
+       | [] => [asciiBytes (textHeader shape), [10], [10]]
+       | b :: rest => [asciiBytes (textHeader shape), [10],
+          asciiBytes (rest.foldl (fun s x => s ++ ' ' :: fmtFixed x p) (fmtFixed b p)), [10]]).flatten := by
+  unfold writeText
+  cases bits with
+  | nil => simp [asciiBytes]
+  | cons b rest => simp [asciiBytes]
+
+theorem writeTextWr_none (shape bits : List Nat) (p : Nat) (w : Wr) (hf : w.failAt = none) :
+    ∃ w', writeTextWr shape bits p w = .ok w' ∧ w'.out = w.out ++ asciiBytes (writeText shape bits p) := by
+  rw [writeText_pieces]
+  unfold writeTextWr
+  cases bits with
+  | nil =>
+    obtain ⟨w', he, ho, _⟩ := Wr.writePieces_none [asciiBytes (textHeader shape), [10], [10]] w hf
+    exact ⟨w', he, ho⟩
+  | cons b rest =>
+    obtain ⟨w', he, ho, _⟩ := Wr.writePieces_none [asciiBytes (textHeader shape), [10],
+      asciiBytes (rest.foldl (fun s x => s ++ ' ' :: fmtFixed x p) (fmtFixed b p)), [10]] w hf
+    exact ⟨w', he, ho⟩
+
+theorem writeTextWr_fail (shape bits : List Nat) (p k : Nat) (w : Wr) (hf : w.failAt = some k)
+    (hk : k < (writeText shape bits p).length) : writeTextWr shape bits p w = .error .io := by
+  have hl : (writeText shape bits p).length = (asciiBytes (writeText shape bits p)).length := by
+    simp [asciiBytes]
+  rw [hl, writeText_pieces] at hk
+  unfold writeTextWr
+  cases bits with
+  | nil =>
+    rcases Wr.writePieces_fail [asciiBytes (textHeader shape), [10], [10]] w k hf with ⟨_, he⟩ | ⟨hle, _⟩
+    · exact he
+    · dsimp only at hk; omega
+  | cons b rest =>
+    rcases Wr.writePieces_fail [asciiBytes (textHeader shape), [10],
+      asciiBytes (rest.foldl (fun s x => s ++ ' ' :: fmtFixed x p) (fmtFixed b p)), [10]] w k hf with
+      ⟨_, he⟩ | ⟨hle, _⟩
+    · exact he
+    · dsimp only at hk; omega
+
 end Sfs
